@@ -334,6 +334,10 @@ func propC10(o *out, r *rng, thorough bool) {
 		"time > '2262-04-12T00:00:00Z'", "time > '1677-09-21T00:12:43.145224191Z'", "time > '1677-09-21T00:12:43.145224193Z'", "time > now()", "time > f()", "time > 1.5", "time > 1e3",
 		"time = 1 AND time = 2", "time > host", "(time > 5)", "((host = 'a'))", "true", "false", "true AND true", "host = 'a' AND true", "time > now() - 1h - 1h", "time > 1h + 1h",
 		"time > '2000-01-01' + 1d", "time >= '2000-01-01' AND time < '2000-01-01' + 1w", "now() > time", "5 < time", "'2000-01-01' <= time", "time =~ /a/", "value + 1 > 2", "time + 1 > 2",
+		// integers beyond int64 are unsigned literals: no instant has such a number of nanoseconds
+		"time < 9223372036854775808", "time > 18446744073709551615", "time = 9223372036854775808", "9223372036854775808 > time", "time >= 9223372036854775808 AND host = 'a'", "time < 18446744073709551616",
+		"time > -9223372036854775808", "time < -9223372036854775808", "time > 9223372036854775807 - 1", "time = 10 AND time > 20", "time > 20 AND time = 10", "time = 10 AND time = 10 AND time < 5", "time = 10 AND time >= 10",
+		"time = '2000-01-01T00:00:00Z' AND time > '2001-01-01T00:00:00Z'", "time < 5 AND time = 7 AND host = 'a'",
 		strings.Repeat("(", 50) + "time > 1" + strings.Repeat(")", 50)} {
 		c10One(o, c10pred{text: w}, nil, "outside-class")
 	}
